@@ -275,6 +275,6 @@ pub fn def() -> CheckDef {
                equivalences: either single fails / intermediate amounts differ / same pool twice / no shared mint / threshold missed by one => two-hop fails.  \
                Non-trivial = compared-equal case, or a mismatch/malformed case that was rejected; distinct = hash of the case.",
         assumptions: vec!["nsvm runtime as in DESIGN.md §5", "static-fee pools here; adaptive-fee two-hops are covered in the `adaptive` sub-check once oracles exist"],
-        subs: vec![sub("two_hop", 16000, 300_000, case_strategy, |c: &TwoHopCase, l: &mut Local| check_case(c, l, false))],
+        subs: vec![sub("two_hop", 30_000, 600_000, case_strategy, |c: &TwoHopCase, l: &mut Local| check_case(c, l, false))],
     }
 }
